@@ -9,7 +9,7 @@ sys.path.insert(0, "/verif/harness/py")
 import ber  # noqa: E402
 
 FAULTS = ["deliver", "drop", "duplicate", "delay", "reorder", "reqid", "cred", "version", "msgid", "user", "engine",
-          "truncate", "foreign"]
+          "truncate", "foreign", "report"]
 
 
 class Dg:
@@ -206,6 +206,17 @@ def run(chk, model_ok=True):
                     new.append(build_reply(peer, req, op, value + 500, view, user=near_bytes(rng, view.user)))
                 elif f == "engine" and peer.kind == "v3":
                     new.append(build_reply(peer, req, op, value + 600, view, engine_id=near_bytes(rng, view.agent_engine)))
+                elif f == "report" and peer.kind == "v3":
+                    # a Report: exempt from the request-id comparison, but user, engine id and msgID must still match
+                    kind = rng.choice(["match", "engine", "msgid", "user"])
+                    over = {"report": True, "request_id": rng.choice([0, req["request_id"], rng.getrandbits(31)])}
+                    if kind == "engine":
+                        over["engine_id"] = near_bytes(rng, view.agent_engine)
+                    elif kind == "msgid":
+                        over["msg_id"] = near_ints(rng, req["msg_id"], prev[-1]["msg_id"] if prev else None)
+                    elif kind == "user":
+                        over["user"] = near_bytes(rng, view.user)
+                    new.append(build_reply(peer, req, op, value + 800, view, **over))
                 elif f == "truncate":
                     cut = rng.randrange(0, len(genuine.data))
                     new.append(Dg(genuine.data[:cut], "garbage", tag="truncate"))
@@ -268,7 +279,9 @@ def run(chk, model_ok=True):
                 for i in range(0, len(ac), 6):
                     out += await asyncio.gather(*[c18.run_async_one(c["peer"], c["sched"]) for c in ac[i:i + 6]])
                 return out
-            ares = asyncio.run(all_async())
+            ares = e2e.run_coro(all_async(), watchdog=10 + len(cases) * 1.0)
+            if ares is None:
+                ares = [(("exc", "Hang", True), 99.0)] * len([c for c in cases if c["mode"] == "async"])
             for c, f in futs:
                 c["result"], c["elapsed"] = f.result()
         for c, (r, el) in zip([c for c in cases if c["mode"] == "async"], ares):
